@@ -30,6 +30,7 @@ def main():
     env.pop("FFCX_REPO", None)
     out = {}
     try:
+        (wt / "_seed").mkdir(exist_ok=True)  # some demos keep their scratch files next to themselves
         demo = wt / "_seed_demo.py"
         txt = (seed / "demo.py").read_text()
         # demos were written against another scratch path
